@@ -14,10 +14,11 @@ from . import c13_geom as g
 from . import c13_translate as tr
 
 PRE = ("From Coq Require Import QArith PrimFloat.\nFrom EsVerif.Common Require Import Base.\n"
-       "From EsVerif.C13 Require Import Model Spec Exec FloatModel ExecF.\nOpen Scope Z_scope.\n")
+       "From EsVerif.C13 Require Import Model Spec Exec FloatModel ExecF ExecTie.\nOpen Scope Z_scope.\n")
 KNOWN_CLASS = "C13.kf_cos_resolution"
 MAXDEPTH = 20
 BORDER = 1e-9 * (1 + 1e-6)      # the statement's unconstrained zone (relative), with a hair for the oracle
+TIE_SPAN = 3000                 # id span of the second list up to which the real rev array is compared with the C05 model
 FLAG = 1e-13                    # |dcos| below which the exact value is sent to Coq for the class predicate
 
 _H = {}
@@ -106,9 +107,12 @@ class Ids(C13Entry):
             cs.append({"pts": [list(p) for p in g.SPECIAL], "how": "f8", "family": "special"})
             cs.append({"pts": [[float(a), float(d)] for a in (0, 90, 180, 270, 360) for d in (-90, -45, 0, 45, 90)],
                        "how": "int", "family": "octant"})
+        hows = ["f8", "f8", "list", "strided", "f4", "tuple", "be", "reversed", "readonly", "0d", "len1", "f8", "f2d"]
         for i in range(ctx.n(36, 400)):
             fam = fams[i % len(fams)]
-            how = r.choice(["f8", "f8", "list", "strided", "f4"])
+            how = hows[(i // len(fams) + i) % len(hows)]
+            if how == "f2d" and not GEN.get("ravel"):
+                how = "f8"              # N-d coordinate arrays only once the source flattens them (fixes/C13/0003)
             pts = []
             for _ in range(r.randrange(1, 25)):
                 ra, dec = g.position(r, fam)
@@ -116,37 +120,92 @@ class Ids(C13Entry):
                     ra, dec = float(np.float32(ra)), float(np.float32(dec))
                     dec = max(-90.0, min(90.0, dec))
                 pts.append([ra, dec])
+            if how == "f2d" and len(pts) % 2:
+                pts.append(list(pts[0]))
             cs.append({"pts": pts, "how": how, "family": fam})
+        # integer-valued positions in integer dtypes (an integer denotes the exact real)
+        for i in range(ctx.n(6, 40)):
+            how = ["i4", "u2", "int", "i2be", "pyint", "bool"][i % 6]
+            lo = 0 if how in ("u2", "bool") else -90
+            if how == "bool":
+                pts = [[float(r.randrange(2)), float(r.randrange(2))] for _ in range(r.randrange(1, 6))]
+            else:
+                pts = [[float(r.choice([0, 90, 180, 270, 360, r.randrange(0, 361)])), float(r.choice([lo, 0, 90, r.randrange(lo, 91)]))]
+                       for _ in range(r.randrange(1, 25))]
+            cs.append({"pts": pts, "how": how, "family": "integer-dtype"})
+        # long arrays: 2^k + 1 points (fewer depths, so that the case file stays small)
+        if round == 0:
+            for n, md in ((ctx.n(2 ** 10 + 1, 2 ** 12 + 1), 4), (ctx.n(2 ** 12 + 1, 2 ** 14 + 1), 1)):
+                pts = [list(g.position(r, fams[j % len(fams)])) for j in range(n)]
+                cs.append({"pts": pts, "how": r.choice(["f8", "strided", "be"]), "family": "long-array", "maxdepth": md})
         return cs
 
     def impl(self, c):
         ra = [p[0] for p in c["pts"]]
         dec = [p[1] for p in c["pts"]]
         how = c["how"]
-        if how == "int":
-            A, D = np.array(ra, dtype="i8"), np.array(dec, dtype="i8")
-            sra, sdec = [int(x) for x in ra], [int(x) for x in dec]
+        md = c.get("maxdepth", MAXDEPTH)
+        per_element = None           # forms in which the "array call" is made element by element
+        if how in ("int", "i4", "u2", "i2be"):
+            dt = {"int": "i8", "i4": "i4", "u2": "u2", "i2be": ">i2"}[how]
+            A, D = np.array(ra, dtype=dt), np.array(dec, dtype=dt)
+            sra, sdec = [A.dtype.type(x) if how != "i2be" else int(x) for x in ra], [D.dtype.type(x) if how != "i2be" else int(x) for x in dec]
+        elif how == "pyint":
+            A, D = [int(x) for x in ra], [int(x) for x in dec]
+            sra, sdec = A, D
+        elif how == "bool":
+            A, D = np.array(ra, dtype=bool), np.array(dec, dtype=bool)
+            sra, sdec = [bool(x) for x in ra], [bool(x) for x in dec]
         elif how == "f4":
             A, D = np.array(ra, dtype="f4"), np.array(dec, dtype="f4")
             sra, sdec = [np.float32(x) for x in ra], [np.float32(x) for x in dec]
         elif how == "list":
             A, D = list(ra), list(dec)
             sra, sdec = ra, dec
+        elif how == "tuple":
+            A, D = tuple(ra), tuple(dec)
+            sra, sdec = ra, dec
         elif how == "strided":
             A, D = np.zeros(2 * len(ra)), np.zeros(2 * len(ra))
             A[::2], D[::2] = ra, dec
             A, D = A[::2], D[::2]
             sra, sdec = [np.float64(x) for x in ra], [np.float64(x) for x in dec]
+        elif how == "reversed":
+            A, D = np.array(ra[::-1], dtype="f8")[::-1], np.array(dec[::-1], dtype="f8")[::-1]
+            sra, sdec = ra, dec
+        elif how == "be":
+            A, D = np.array(ra, dtype=">f8"), np.array(dec, dtype=">f8")
+            sra, sdec = [A[i] for i in range(len(ra))], [D[i] for i in range(len(dec))]       # big-endian 0-d scalars
+        elif how == "readonly":
+            A, D = np.array(ra, dtype="f8"), np.array(dec, dtype="f8")
+            A.flags.writeable = False
+            D.flags.writeable = False
+            sra, sdec = ra, dec
+        elif how == "0d":
+            per_element = [(np.array(a, dtype="f8"), np.array(b, dtype="f8")) for a, b in zip(ra, dec)]
+            sra, sdec = ra, dec
+        elif how == "len1":
+            per_element = [(np.array([a]), [b]) for a, b in zip(ra, dec)]                       # array with a list
+            sra, sdec = [np.float64(x) for x in ra], dec                                        # numpy scalar with python float
+        elif how == "f2d":
+            A, D = np.array(ra, dtype="f8").reshape(2, -1), np.array(dec, dtype="f8").reshape(2, -1)
+            sra, sdec = ra, dec
         else:
             A, D = np.array(ra, dtype="f8"), np.array(dec, dtype="f8")
             sra, sdec = ra, dec
+        before = None if per_element is not None or not isinstance(A, np.ndarray) else (A.tobytes(), D.tobytes())
 
         def f():
-            arr = [[int(x) for x in htm_of(d).lookup_id(A, D)] for d in range(MAXDEPTH + 1)]
-            sc = [[int(htm_of(d).lookup_id(a, b)[0]) for a, b in zip(sra, sdec)] for d in range(MAXDEPTH + 1)]
+            if per_element is None:
+                arr = [[int(x) for x in np.ravel(htm_of(d).lookup_id(A, D))] for d in range(md + 1)]
+            else:
+                arr = [[int(htm_of(d).lookup_id(a, b)[0]) for a, b in per_element] for d in range(md + 1)]
+            sc = [[int(htm_of(d).lookup_id(a, b)[0]) for a, b in zip(sra, sdec)] for d in range(md + 1)]
             n = len(ra)
-            return {"arr": [[arr[d][i] for d in range(MAXDEPTH + 1)] for i in range(n)],
-                    "sc": [[sc[d][i] for d in range(MAXDEPTH + 1)] for i in range(n)]}
+            if any(len(x) != n for x in arr) or (before is not None and before != (A.tobytes(), D.tobytes())):
+                raise RuntimeError("lookup_id returned %s ids for %d positions, or modified its arguments" % ([len(x) for x in arr][:3], n))
+            return {"arr": [[arr[d][i] for d in range(md + 1)] for i in range(n)],
+                    "sc": [[sc[d][i] for d in range(md + 1)] for i in range(n)]}
         out = core.guarded(f)
         self.remember(c, out)
         return out
@@ -249,15 +308,44 @@ class Intersect(C13Entry):
                        "family": "pinned-by-test-suite"})
         # (thorough: at most ~10000 triangles per list and 1200 cases keep the generated Coq case files, which are
         # compiled 400 cases at a time, below ~1 GB of coqc memory each)
+        forms = ["py", "py", "np64", "positional", "default", "int-flag", "npbool"]
         for i in range(ctx.n(120, 1200)):
-            cs.append(self._case(ctx, r, fams[i % len(fams)], ctx.n(3000, 10000)))
+            c = self._case(ctx, r, fams[i % len(fams)], ctx.n(3000, 10000))
+            c["how"] = forms[(i // len(fams) + i) % len(forms)]
+            cs.append(c)
+        # integer-valued centre and radius passed as python ints (an integer denotes the exact real)
+        for i in range(ctx.n(6, 40)):
+            depth = r.randrange(1, 7)
+            radius = float(r.choice([1, 2, 5, 10, 30, 45, 90]))
+            while g.ntri_estimate(depth, radius) > ctx.n(3000, 10000) and depth > 1:
+                depth -= 1
+            ra, dec = float(r.choice([0, 90, 180, 270, 360, r.randrange(0, 361)])), float(r.choice([-90, 0, 90, r.randrange(-90, 91)]))
+            samples = [list(g.offset(ra % 360.0, dec, min(f * radius, 179.9), r.uniform(0, 360)))
+                       for f in [r.random() for _ in range(12)] + [1 - 10 ** r.uniform(-8.9, -1) for _ in range(6)]
+                       + [1 + 10 ** r.uniform(-8.9, 0) for _ in range(6)]]
+            cs.append({"depth": depth, "ra": ra, "dec": dec, "radius": radius, "samples": samples, "family": "integer-arguments", "how": "int"})
         return cs
 
     def impl(self, c):
         def f():
             h = htm_of(c["depth"])
-            incl = h.intersect(c["ra"], c["dec"], c["radius"], inclusive=True)
-            full = h.intersect(c["ra"], c["dec"], c["radius"], inclusive=False)
+            how = c.get("how", "py")
+            a = (c["ra"], c["dec"], c["radius"])
+            if how == "int":
+                a = tuple(int(x) for x in a)
+            elif how == "np64":
+                a = tuple(np.float64(x) for x in a)
+            if how == "positional":
+                incl, full = h.intersect(a[0], a[1], a[2], True), h.intersect(a[0], a[1], a[2], False)
+            elif how == "default":          # inclusive omitted = True
+                incl, full = h.intersect(*a), h.intersect(ra=a[0], dec=a[1], radius=a[2], inclusive=False)
+            elif how == "int-flag":
+                incl, full = h.intersect(*a, inclusive=1), h.intersect(*a, inclusive=0)
+            elif how == "npbool":
+                incl, full = h.intersect(*a, inclusive=np.bool_(True)), h.intersect(*a, inclusive=np.bool_(False))
+            else:
+                incl = h.intersect(a[0], a[1], a[2], inclusive=True)
+                full = h.intersect(a[0], a[1], a[2], inclusive=False)
             S = [[c["ra"], c["dec"]]] + c["samples"]          # the centre's own triangle
             sra = np.array([s[0] for s in S])
             sdec = np.array([s[1] for s in S])
@@ -344,6 +432,130 @@ def pair_oracle(c, maxspan=None):
                 zones["%d,%d" % (i1, i2)] = [float(x) if abs(x) <= FLAG else 1.0 for x in dc]
         pairs.append(row)
     return pairs, zones, thetas
+
+
+FORMS = ["lists", "tuples", "strided", "reversed", "byteswapped", "readonly", "scalar-args", "scale-forms", "ids-i4", "ids-tuple",
+         "rev-strided", "minid-only", "maxid-only", "minmax-without-ids", "getbins-explicit", "verbose", "fresh-object"]
+
+
+def _strided(a):
+    b = np.zeros(3 * len(a), dtype=a.dtype)
+    b[::3] = a
+    return b[::3]
+
+
+def _reversed(a):
+    return np.ascontiguousarray(a[::-1])[::-1]
+
+
+class _Quiet:
+    """silence what the C++ code writes to stdout with verbose=True"""
+    def __enter__(self):
+        import sys
+        sys.stdout.flush()
+        self.saved = os.dup(1)
+        self.null = os.open(os.devnull, os.O_WRONLY)
+        os.dup2(self.null, 1)
+
+    def __exit__(self, *a):
+        os.dup2(self.saved, 1)
+        os.close(self.saved)
+        os.close(self.null)
+
+
+def bincount_form(form, h, depth, rmin, rmax, nbin, ra1, dec1, ra2, dec2, sc, id2, rev, mn, mx):
+    """one more call of the real bincount with the same mathematical input in another FORM; returns the counts, or
+    None when the form does not apply to this case"""
+    from esutil import htm
+    pos = [ra1, dec1, ra2, dec2]
+    pre = dict(htmid2=id2, htmrev2=rev)            # skips the internal lookup/histogram (time)
+    kw = dict(getbins=False)
+    conv = None
+    if form == "lists":
+        conv = lambda a: [float(x) for x in a]
+        pre = {}
+    elif form == "tuples":
+        conv = lambda a: tuple(float(x) for x in a)
+    elif form == "strided":
+        conv = _strided
+        pre = {}
+    elif form == "reversed":
+        conv = _reversed
+    elif form == "byteswapped":
+        conv = lambda a: a.astype(">f8")
+    elif form == "readonly":
+        def conv(a):
+            b = a.copy()
+            b.flags.writeable = False
+            return b
+        pre = dict(htmid2=conv(id2), htmrev2=conv(rev))
+    elif form in ("f4", "i4", "i8"):
+        conv = lambda a: a.astype(form)
+        pre = {}
+    elif form == "pyint":
+        conv = lambda a: [int(x) for x in a]
+    elif form == "2d":
+        conv = lambda a: a.reshape(1, -1) if a.size % 2 else np.asfortranarray(a.reshape(2, -1))
+        pre = dict(htmid2=id2.reshape(-1, 1), htmrev2=rev)
+    if conv is not None:
+        args = [conv(a) for a in pos]
+        s2 = sc
+        if isinstance(sc, np.ndarray) and form not in ("f4", "i4", "i8", "pyint"):
+            s2 = conv(sc)
+        before = [a.tobytes() for a in args if isinstance(a, np.ndarray)]
+        out = h.bincount(rmin, rmax, nbin, *args, scale=s2, **pre, **kw)
+        if before != [a.tobytes() for a in args if isinstance(a, np.ndarray)]:
+            raise RuntimeError("bincount modified its array arguments (form %s)" % form)
+        return out
+    if form == "scalar-args":
+        a1 = (float(ra1[0]), float(dec1[0])) if ra1.size == 1 else (ra1, dec1)
+        a2 = (float(ra2[0]), float(dec2[0])) if ra2.size == 1 else (ra2, dec2)
+        return h.bincount(np.float64(rmin), np.float64(rmax), int(nbin), a1[0], a1[1], a2[0], a2[1], scale=sc,
+                          **(pre if ra2.size > 1 else {}), **kw)
+    if form == "scale-forms":
+        if sc is None:
+            return h.bincount(rmin, rmax, nbin, *pos, None, **pre, **kw)                   # scale positional, explicit default
+        if isinstance(sc, np.ndarray):
+            o1 = h.bincount(rmin, rmax, nbin, *pos, scale=[float(x) for x in sc], **pre, **kw)
+            o2 = h.bincount(rmin, rmax, nbin, *pos, scale=_strided(sc).astype(">f8"), **pre, **kw)
+        else:
+            o1 = h.bincount(rmin, rmax, nbin, *pos, scale=np.array(sc), **pre, **kw)       # 0-d array
+            o2 = h.bincount(rmin, rmax, nbin, *pos, scale=(sc,), **pre, **kw)              # length-1 tuple
+        if list(o1) != list(o2):
+            raise RuntimeError("bincount: two forms of the same scale give different counts: %s %s" % (list(o1), list(o2)))
+        return o1
+    if form == "ids-i4":
+        if mx >= 2 ** 31:
+            return None
+        return h.bincount(rmin, rmax, nbin, *pos, scale=sc, htmid2=id2.astype("i4"), htmrev2=rev, **kw)
+    if form == "ids-tuple":
+        return h.bincount(rmin, rmax, nbin, *pos, scale=sc, htmid2=tuple(int(x) for x in id2), htmrev2=rev, minid=int(mn), **kw)
+    if form == "rev-strided":
+        return h.bincount(rmin, rmax, nbin, *pos, scale=sc, htmid2=_strided(id2), htmrev2=_strided(rev), **kw)
+    if form == "minid-only":
+        return h.bincount(rmin, rmax, nbin, *pos, scale=sc, htmid2=id2, htmrev2=rev, minid=mn, **kw)
+    if form == "maxid-only":
+        return h.bincount(rmin, rmax, nbin, *pos, scale=sc, htmid2=id2, htmrev2=rev, maxid=int(mx), **kw)
+    if form == "minmax-without-ids":
+        return h.bincount(rmin, rmax, nbin, *pos, scale=sc, htmrev2=rev, minid=mn, maxid=mx, **kw)
+    if form == "getbins-explicit":
+        lo, up, cnt = h.bincount(rmin, rmax, nbin, *pos, scale=sc, getbins=True, verbose=False, **pre)
+        cnt2 = h.bincount(rmin, rmax, nbin, *pos, sc, id2, rev, mn, mx, False, False)          # everything positional
+        if list(cnt) != list(cnt2):
+            raise RuntimeError("bincount: keyword and positional call differ: %s %s" % (list(cnt), list(cnt2)))
+        return cnt
+    if form == "verbose":
+        with _Quiet():
+            return h.bincount(rmin, rmax, nbin, *pos, scale=sc, verbose=True, **pre, **kw)
+    if form == "fresh-object":
+        htm.HTM(max(1, depth - 1)).lookup_id(ra2, dec2)           # another depth in between
+        h2 = htm.HTM(depth)
+        o1 = h2.bincount(rmin, rmax, nbin, *pos, scale=sc, **pre, **kw)
+        o2 = h2.bincount(rmin, rmax, nbin, *pos, scale=sc, **pre, **kw)      # second call on the same object
+        if list(o1) != list(o2):
+            raise RuntimeError("bincount: two identical calls differ: %s %s" % (list(o1), list(o2)))
+        return o1
+    raise ValueError(form)
 
 
 class Bincount(C13Entry):
@@ -484,6 +696,40 @@ class Bincount(C13Entry):
             cs.append(self._edge_case(ctx, r, modes[i % 3]))
         for i in range(ctx.n(8, 60)):
             cs.append(self._cover_edge_case(ctx, r, modes[i % 2]))
+        # input forms (DESIGN 'all point sets as in C12': byte-swapped and non-contiguous coordinate arrays; plus lists,
+        # tuples, scalars, read-only, integer / float32 dtypes, option combinations): every case gets three of them in turn
+        for i, c in enumerate(cs):
+            c["forms"] = [FORMS[(3 * i + j) % len(FORMS)] for j in range(3)]
+        # coordinates that are exactly representable in float32 / as integers, passed in those dtypes
+        for i in range(ctx.n(6, 45)):
+            c = self._case(ctx, r, "cap", modes[i % 3])
+            if i % 2 == 0:
+                for k in ("ra1", "dec1", "ra2", "dec2"):
+                    c[k] = [max(-90.0, min(90.0, float(np.float32(x)))) if k.startswith("dec") else float(np.float32(x)) for x in c[k]]
+                c["forms"] = ["f4", FORMS[i % len(FORMS)]]
+                c["family"] = "float32-coordinates/" + c["family"].split("/")[1]
+            else:
+                ra0, dec0 = r.randrange(0, 360), r.randrange(-80, 81)
+                c["ra1"] = [float((ra0 + r.randrange(-3, 4)) % 360) for _ in c["ra1"]]
+                c["dec1"] = [float(dec0 + r.randrange(-3, 4)) for _ in c["dec1"]]
+                c["ra2"] = [float((ra0 + r.randrange(-4, 5)) % 360) for _ in c["ra2"]]
+                c["dec2"] = [float(dec0 + r.randrange(-4, 5)) for _ in c["dec2"]]
+                c["depth"] = r.randrange(1, 6)
+                unit = 1.0 if c["scale"] is None else math.radians(1.0) * (c["scale"] if not isinstance(c["scale"], list) else min(c["scale"]))
+                c["rmax"] = r.choice([1.5, 3.0, 6.5]) * unit
+                c["rmin"] = c["rmax"] / r.choice([3.0, 10.0, 25.0])
+                c["forms"] = [r.choice(["i4", "i8", "pyint"]), FORMS[i % len(FORMS)]]
+                c["family"] = "integer-coordinates/" + c["family"].split("/")[1]
+            cs.append(c)
+        # long lists: 2^k + 1 points in the second list; more than `step` = 500 points in the first (verbose progress)
+        if round == 0:
+            for n1, n2, forms in ((2, ctx.n(2 ** 10 + 1, 2 ** 12 + 1), ["strided", "ids-i4"]), (ctx.n(501, 1001), 3, ["verbose", "byteswapped"])):
+                centre = g.position(r, "uniform")
+                capr = 0.5
+                P = [list(g.offset(centre[0], centre[1], capr * math.sqrt(r.random()), r.uniform(0, 360))) for _ in range(n1 + n2)]
+                cs.append({"depth": 7, "ra1": [p[0] for p in P[:n1]], "dec1": [p[1] for p in P[:n1]],
+                           "ra2": [p[0] for p in P[n1:]], "dec2": [p[1] for p in P[n1:]], "rmin": 0.01, "rmax": 0.4, "nbin": 4,
+                           "scale": None, "family": "long-lists", "forms": forms})
         return cs
 
     # ---- the real code
@@ -509,15 +755,28 @@ class Bincount(C13Entry):
             lower, upper, counts = h.bincount(*a, scale=sc)
             mn, mx = id2.min(), id2.max()
             hist, rev = stat.histogram(id2 - mn, rev=True)
-            outs = [counts,
-                    h.bincount(*a, scale=sc, htmid2=id2, htmrev2=rev, minid=mn, maxid=mx, getbins=False),
-                    h.bincount(*a, scale=sc, htmid2=id2, getbins=False),
-                    h.bincount(*a, scale=sc, htmid2=id2, htmrev2=rev, getbins=False),
-                    h.bincount(*a, scale=sc, htmrev2=rev, getbins=False),
-                    h.bincount(*a, scale=sc, htmid2=list(int(x) for x in id2), htmrev2=rev.copy(), minid=int(mn), maxid=int(mx),
-                               getbins=False, verbose=False)]
+            guard = [x.copy() for x in (ra1, dec1, ra2, dec2, id2, rev)] + ([sc.copy()] if isinstance(sc, np.ndarray) else [])
+
+            def unchanged(where):
+                now = [ra1, dec1, ra2, dec2, id2, rev] + ([sc] if isinstance(sc, np.ndarray) else [])
+                if any(x.tobytes() != y.tobytes() for x, y in zip(guard, now)):
+                    raise RuntimeError("bincount modified an array argument (%s)" % where)
+            unchanged("plain call")
+            outs = [counts]
+            for kw in (dict(htmid2=id2, htmrev2=rev, minid=mn, maxid=mx), dict(htmid2=id2), dict(htmid2=id2, htmrev2=rev), dict(htmrev2=rev),
+                       dict(htmid2=list(int(x) for x in id2), htmrev2=rev.copy(), minid=int(mn), maxid=int(mx), verbose=False)):
+                outs.append(h.bincount(*a, scale=sc, getbins=False, **kw))
+                unchanged("precomputed " + ",".join(sorted(kw)))
             if isinstance(scale, list) and len(scale) == 1:          # size-1 array = scalar
                 outs.append(h.bincount(*a, scale=scale[0], getbins=False))
+            forms = list(c.get("forms", []))
+            if GEN.get("ravel") and forms:
+                forms.append("2d")           # N-d coordinate arrays only once the source flattens them (fixes/C13/0003)
+            for form in forms:
+                o = bincount_form(form, h, depth, c["rmin"], c["rmax"], c["nbin"], ra1, dec1, ra2, dec2, sc, id2, rev, mn, mx)
+                unchanged("form " + form)
+                if o is not None:
+                    outs.append(o)
             covers = []
             for i1 in range(ra1.size):
                 s = 1.0 if scale is None else (scale[i1] if isinstance(scale, list) and len(scale) > 1 else
@@ -551,7 +810,12 @@ class Bincount(C13Entry):
             t.append("[" + "; ".join(zs) + "]")
         if outs:
             t.append(clists(o["outs"]))
-        return " ".join(t)
+        term = " ".join(t)
+        if fn == "v_bincount_x" and o["mx"] - o["mn"] <= TIE_SPAN:
+            # the real reverse-index array = C05's verified pass on its own sort index (ExecTie.rev_tie, C13_rev_tie_sound)
+            term = "with_tie (%s) (rev_tie %s %s %s %s)" % (term, clist(o["ids2"]), cz(o["mn"]), cz(o["mx"]),
+                                                          "[" + "; ".join("(%s, %s)" % (cz(n), cz(v)) for n, v in o["rle"]) + "]")
+        return term
 
     def term(self, c, out):
         if out[0] != "ok":
@@ -598,7 +862,8 @@ TRUSTED = [
 DISCRETE = ["C13_id_range", "C13_hierarchy", "C13_range_monitor_complete", "C13_scalar_equals_array",
             "C13_intersect_full_in_inclusive", "C13_intersect_checker_strict", "C13_intersect_outside_known",
             "C13_rev_traversal_visits_each_member_once", "C13_bincount",
-            "C13_precomputed_equals_internal", "C13_any_reverse_index_layout", "C13_bincount_checker", "C13_radbin_spec", "C13_cast_vs_floor",
+            "C13_precomputed_equals_internal", "C13_any_reverse_index_layout", "C13_bincount_checker",
+            "C13_rev_layout_from_C05", "C13_bincount_with_C05_rev", "C13_rev_tie_sound", "C13_radbin_spec", "C13_cast_vs_floor",
             "C13_checkers_sound"]
 
 LPRE = ("From Coq Require Import Reals.\nFrom Interval Require Import Tactic.\n"
@@ -697,7 +962,7 @@ def run(ctx, replay=None):
                 "distinct by canonical JSON.  Positions/pairs within 1e-9 relative of a circle/bin edge are unconstrained (counted as "
                 "code 0 / tag 2).")
     ctx.trusted = TRUSTED
-    if not core.proof_step(ctx, "C13", core.ALLOW_REALS + core.ALLOW_FLOAT, extra_targets=("theories/C13/ExecF.vo",)):
+    if not core.proof_step(ctx, "C13", core.ALLOW_REALS + core.ALLOW_FLOAT, extra_targets=("theories/C13/ExecF.vo", "theories/C13/ExecTie.vo")):
         return
     res, bad, _ = core.assumptions(ctx.work, "C13.Properties", DISCRETE, core.ALLOW_DISCRETE)
     ctx.obligation("the %d discrete C13 theorems are closed under the global context" % len(DISCRETE), not bad, str(bad[:3]))
@@ -708,6 +973,13 @@ def run(ctx, replay=None):
     differential(ctx, PRE, ENTRIES, replay)
     if replay is None:
         real_lemmas(ctx)
+    for e in ENTRIES:
+        for c, out in e._seen.values():          # measured distribution of the input forms
+            if out[0] == "ok":
+                for f in ([c["how"]] if "how" in c else c.get("forms", [])):
+                    ctx.count("form:%s:%s" % (e.name, f))
+                if e.name == "bincount":
+                    ctx.count("rev_tie_to_C05_model:" + ("compared" if out[1]["mx"] - out[1]["mn"] <= TIE_SPAN else "span-too-large"))
     for e in ENTRIES:
         n = sum(1 for v in (e._known or {}).values() if v == 1)
         if n:
